@@ -203,9 +203,13 @@ class Net:
     order after its own latency (0 = handled re-entrantly inside the sender's send call), background passes run when a
     stack asked to be woken (plus an optional scheduling latency)."""
 
-    def __init__(self, world, latency=lambda rng, src, dst, frame: 1000, tick_latency=lambda rng, i: 0, rng=None, loss=None):
+    def __init__(self, world, latency=lambda rng, src, dst, frame: 1000, tick_latency=lambda rng, i: 0, rng=None, loss=None,
+                 max_frames=100000):
         import random
         self.w = world
+        self.max_frames = max_frames      # a bus that carries more than this is reported as flooded (an endless exchange)
+        self.flood = False
+        self.depth = 0                    # nesting of re-entrant (zero-latency) deliveries
         self.rng = rng or random.Random(0)
         self.latency = latency
         self.tick_latency = tick_latency
@@ -234,6 +238,11 @@ class Net:
     def _on_send(self, src, fr):
         t, can_id, ext, data, fd = fr
         k = len(self.bus)
+        if k >= self.max_frames:
+            if not self.flood:
+                self.flood = True
+                self.errors.append((src.idx, 'bus', f'flood: more than {self.max_frames} frames, the exchange does not end'))
+            return
         self.bus.append((t, src.idx, can_id, list(data), fd))
         for tap in self.taps:
             tap(src.idx, fr)
@@ -244,8 +253,12 @@ class Net:
                 continue
             lat = self.latency(self.rng, src.idx, s.idx, fr)
             q = self.fifo[s.idx]
-            if lat == 0 and not q:
-                self._deliver(s, can_id, data)       # re-entrant: handled before send returns
+            if lat == 0 and not q and self.depth < 24:
+                self.depth += 1
+                try:
+                    self._deliver(s, can_id, data)   # re-entrant: handled before send returns
+                finally:
+                    self.depth -= 1
             else:
                 arr = max(self.w.now + lat, q[-1][0] if q else 0)   # bus order per receiver is kept
                 self.seq += 1
